@@ -1,6 +1,6 @@
 #!/bin/bash
 # dev helper: per-function rlimit cost of the whole generated unit (top N)
-cd /var/tmp/vp && verus unit_${1:-parser}.rs --output-json --time-expanded --num-threads 16 2>/dev/null > out_te.txt
+cd /var/tmp/vp && verus unit_${1:-parser}.rs --output-json --time-expanded --num-threads 16 -V spinoff-all 2>/dev/null > out_te.txt
 python3 - <<PY
 import json
 d=json.load(open('/var/tmp/vp/out_te.txt'))
